@@ -75,7 +75,7 @@ fn main() {
         "VOC1" => voc::gen_raw(seed, thorough, true),
         "C06" => { voc::gen_c06(seed, thorough); engine::gen_tie(seed, "C06", thorough); engine::gen_plumb(seed, "C06", thorough) }
         "C07" => { voc::gen_c07(seed, thorough); engine::gen_tie(seed, "C07", thorough); engine::gen_plumb(seed, "C07", thorough) }
-        "C11" => { engine::gen_c11(seed, thorough); voc::gen_c11_render(seed, thorough); engine::gen_tie(seed, "C11", thorough); engine::gen_plumb(seed, "C11", thorough) }
+        "C11" => { engine::gen_c11(seed, thorough); voc::gen_c11_render(seed, thorough); c05::gen_mask_class(seed, thorough); engine::gen_tie(seed, "C11", thorough); engine::gen_plumb(seed, "C11", thorough) }
         "C12" => { engine::gen_c12(seed, thorough); engine::gen_tie(seed, "C12", thorough); engine::gen_plumb(seed, "C12", thorough) }
         "C13" => { voc::gen_c13(seed, thorough); engine::gen_tie(seed, "C13", thorough); engine::gen_plumb(seed, "C13", thorough) }
         "C14" => { voc::gen_c14(seed, thorough); engine::gen_tie(seed, "C14", thorough); engine::gen_plumb(seed, "C14", thorough) }
